@@ -177,10 +177,7 @@ Section RA.
   Lemma RA_rec_close m s r :
     senders s = 0%nat -> queue s = [] -> cancels s = [] -> RA m s -> RA (rec_call m (CClose r)) s.
   Proof.
-    intros H1 H2 H3 []. constructor; try assumption.
-    - intros sr Hsr. destruct (ra_ie0 sr Hsr) as [H|[H|[H|H]]]; [tauto|tauto| |tauto].
-      right; right; left. apply (ended_rec_call m (CClose r)), H.
-    - intros _. auto.
+    intros H1 H2 H3 []. constructor; try assumption. intros _. auto.
   Qed.
 
   (* the model moves on, losing (not gaining) tracked state *)
@@ -240,7 +237,8 @@ Section RA.
   Proof.
     unfold phase_calls. intros H Hp. rewrite H. clear - H Hp. revert i H.
     induction l as [|y r IH]; intros [|i] H; cbn in *; try discriminate.
-    - injection H as ->. cbn [c_phase with_phase]. rewrite <- Hp. reflexivity.
+    - injection H as ->. cbn [c_phase with_phase]. rewrite <- Hp.
+      destruct (live_phase (c_phase c)); reflexivity.
     - destruct (live_phase (c_phase y)); cbn; rewrite (IH i H); reflexivity.
   Qed.
 
@@ -249,7 +247,7 @@ Section RA.
   Proof.
     intros [Wa _]. unfold release_permit. destruct (waiters s) as [|w r] eqn:Ew.
     - split; [apply calls_ok_eq; reflexivity|reflexivity].
-    - destruct (Wa w) as (c & Hc & Hp); [rewrite Ew; left; reflexivity|].
+    - destruct (Wa w) as (c & Hc & Hp); [first [left; reflexivity|rewrite Ew; left; reflexivity]|].
       rewrite set_phase_alt. split.
       + intros i c' H. cbn [calls upd_calls upd_q] in H. apply nth_error_phase_calls_inv in H.
         destruct H as [[-> (c0 & Hc0 & ->)]|[Hn H]].
@@ -282,5 +280,258 @@ Section RA.
     - apply (pf_terminal _ _ (if_p _ _ F)).
     - apply (pf_dropped _ _ (if_p _ _ F)).
     - apply (pf_now _ _ (if_p _ _ F)).
+  Qed.
+
+  (* ---------------------------------------------------------------- oneshot receivers stay closed *)
+  Lemma rxc_set_slot s id x id' :
+    (sl_rx_closed (slotv (slots s) id) = true -> sl_rx_closed x = true) ->
+    sl_rx_closed (slotv (slots s) id') = true -> sl_rx_closed (slotv (slots (set_slot s id x)) id') = true.
+  Proof.
+    intros H. unfold set_slot. cbn [slots upd_slots]. rewrite slotv_aset.
+    destruct (N.eqb id' id) eqn:E; [|tauto]. apply N.eqb_eq in E; subst. exact H.
+  Qed.
+  Lemma rxc_slot_send s id o id' :
+    sl_rx_closed (slotv (slots s) id') = true -> sl_rx_closed (slotv (slots (slot_send s id o)) id') = true.
+  Proof.
+    rewrite slot_send_alt. apply rxc_set_slot. rewrite <- get_slot_slotv. unfold send_val.
+    intros ->. reflexivity.
+  Qed.
+  Lemma rxc_slot_tx_drop s id id' :
+    sl_rx_closed (slotv (slots s) id') = true -> sl_rx_closed (slotv (slots (slot_tx_drop s id)) id') = true.
+  Proof. unfold slot_tx_drop. apply rxc_set_slot. rewrite <- get_slot_slotv. cbn. tauto. Qed.
+  Lemma rxc_slot_rx_close s id id' :
+    sl_rx_closed (slotv (slots s) id') = true -> sl_rx_closed (slotv (slots (slot_rx_close s id)) id') = true.
+  Proof. unfold slot_rx_close. apply rxc_set_slot. reflexivity. Qed.
+
+  Lemma rxc_complete_request s id o id' :
+    sl_rx_closed (slotv (slots s) id') = true ->
+    sl_rx_closed (slotv (slots (snd (complete_request s id o))) id') = true.
+  Proof.
+    unfold complete_request. destruct (alookup id (inflight s)); cbn [snd]; [|tauto].
+    intro H. apply rxc_slot_send. exact H.
+  Qed.
+
+  (* complete_request as a shrinking step *)
+  Lemma complete_request_fields s id o :
+    let s' := snd (complete_request s id o) in
+    calls s' = calls s /\ handles s' = handles s /\ queue s' = queue s /\ cancels s' = cancels s /\
+    terminal s' = terminal s /\ dropped s' = dropped s /\
+    (forall id', In id' (map fst (inflight s')) -> In id' (map fst (inflight s)) /\
+                 (alookup id (inflight s) <> None -> id' <> id)) /\
+    (forall id', In id' (map fst (inflight s)) -> id' <> id -> In id' (map fst (inflight s'))) /\
+    (forall x, In x (timers s') -> In x (timers s)).
+  Proof.
+    unfold complete_request. destruct (alookup id (inflight s)) eqn:E; cbn [snd].
+    - rewrite slot_send_alt. cbn [calls handles queue cancels terminal dropped inflight timers
+                                  set_slot upd_slots upd_if].
+      do 6 (split; [reflexivity|]). split; [|split].
+      + intros id' H. apply in_map_fst_aremove in H. tauto.
+      + intros id' H Hn. apply in_map_fst_aremove. tauto.
+      + intros [k v] H. apply In_aremove in H. tauto.
+    - do 6 (split; [reflexivity|]). split; [|split]; try tauto.
+      intros id' H. split; [exact H|congruence].
+  Qed.
+
+  Lemma senders_eq s s' : calls s' = calls s -> handles s' = handles s -> senders s' = senders s.
+  Proof. intros E1 E2. unfold senders. rewrite E1, E2. reflexivity. Qed.
+
+  (* ---------------------------------------------------------------- one micro-step *)
+  Lemma RA_xframe m s s' : XFrame s s' -> RA m s -> RA m s'.
+  Proof.
+    intros [[] ] R. eapply RA_frame; [reflexivity..| | | | | | | | | |exact R]; assumption.
+  Qed.
+
+  Lemma RA_send_request m s1 q w :
+    sim m (withq s1 q) -> RA m s1 -> sl_rx_closed (slotv (slots s1) (q_id q)) = false ->
+    RA (rec_call m (req_call q w)) (insert_request s1 q).
+  Proof.
+    intros Sq R Hrx. pose proof (sim_withq_drop _ _ _ Sq) as S.
+    assert (Huns : forall x, In x (m_sent m) -> s_id x <> q_id q).
+    { intros x Hx. apply (sd_queue_unsent _ _ (sim_d _ _ Sq) q x); [left; reflexivity|exact Hx]. }
+    pose proof (sc_now _ _ (sim_c _ _ S)) as Hnow.
+    destruct R. unfold req_call, insert_request. constructor;
+      cbn [calls inflight timers slots queue cancels terminal dropped upd_if];
+      rewrite ?rec_call_sent, ?rec_call_polled; cbn [sent_of].
+    - intros sr Hsr. rewrite cancelled_rec_call. cbn [cancel_id]. rewrite orb_false_r.
+      rewrite In_map_fst_aset. apply in_app_or in Hsr. destruct Hsr as [Hsr|[<-|[]]].
+      + destruct (ra_ie0 sr Hsr) as [H|[H|[H|H]]]; [tauto|tauto| |tauto].
+        right; right; left. apply ended_rec_call, H.
+      + left; left; reflexivity.
+    - intros i c Hc Hp Hpol Hin. apply In_map_fst_aset in Hin. destruct Hin as [Hin|Hin].
+      + exfalso. pose proof (ra_rxc0 i c Hc (or_intror Hp) Hpol) as H. rewrite Hin in H. congruence.
+      + apply (ra_ac0 i c); assumption.
+    - exact ra_rxc0.
+    - intros id w0 sr Hin Hsr Hid. apply In_aset in Hin. apply in_app_or in Hsr.
+      destruct Hin as [[-> ->]|[Hin Hne]].
+      + destruct Hsr as [Hsr|[<-|[]]]; [exfalso; eapply Huns; eassumption|].
+        cbn [s_deadline s_time]. rewrite Hnow. unfold timer_instant.
+        destruct (N.min_spec (q_deadline q - now s1) max_timeout_ms) as [[_ ->]|[_ ->]]; lia.
+      + destruct Hsr as [Hsr|[<-|[]]]; [eapply ra_ti0; eassumption|]. cbn [s_id] in Hid. congruence.
+    - rewrite close_called_rec_call. exact ra_cc0.
+  Qed.
+
+  Lemma RA_rec_cancel m s id tc w : RA m s -> RA (rec_call m (CSend (MCancel id tc) w)) s.
+  Proof.
+    intros []. constructor; rewrite ?rec_call_sent, ?rec_call_polled; cbn [sent_of];
+      rewrite ?app_nil_r; try assumption.
+    - intros sr Hsr. rewrite cancelled_rec_call.
+      destruct (ra_ie0 sr Hsr) as [H|[H|[H|H]]]; [tauto| | |tauto].
+      + right; left. rewrite H. reflexivity.
+      + right; right; left. apply ended_rec_call, H.
+    - rewrite close_called_rec_call. exact ra_cc0.
+  Qed.
+
+  Lemma RA_mstep m e s s' :
+    mstep tp e s s' -> sim m s -> RA m s ->
+    forall seg, plog s' = plog s ++ seg -> RA (mrun m seg) s'.
+  Proof.
+    intros H S R seg Hseg.
+    assert (Seg1 : forall c, plog s' = plog s ++ [c] -> seg = [c]).
+    { intros c E. rewrite E in Hseg. apply app_inv_head in Hseg. congruence. }
+    assert (Seg0 : plog s' = plog s -> seg = []).
+    { intros E. rewrite E in Hseg. rewrite <- (app_nil_r (plog s)) in Hseg at 1.
+      apply app_inv_head in Hseg. congruence. }
+    destruct H.
+    - (* ready *)
+      pose proof (XFrame_do_ready tp _ _ _ H) as X. apply do_ready_eq in H.
+      rewrite (Seg1 (CReady r)) by (rewrite H; reflexivity). cbn [mrun fold_left].
+      eapply RA_xframe; [exact X|]. apply RA_rec_mono; [reflexivity|discriminate|exact R].
+    - pose proof (XFrame_do_flush tp _ _ _ H) as X. apply do_flush_eq in H.
+      rewrite (Seg1 (CFlush r)) by (rewrite H; reflexivity). cbn [mrun fold_left].
+      eapply RA_xframe; [exact X|]. apply RA_rec_mono; [reflexivity|discriminate|exact R].
+    - (* close *)
+      pose proof (XFrame_do_close tp _ _ _ H3) as X. apply do_close_eq in H3.
+      rewrite (Seg1 (CClose r)) by (rewrite H3; reflexivity). cbn [mrun fold_left].
+      eapply RA_xframe; [exact X|]. apply RA_rec_close; assumption.
+    - (* read an item *)
+      pose proof (XFrame_do_next tp _ _ _ H) as X. apply do_next_eq in H.
+      destruct H as [(_ & [=] & _)|(_ & H)].
+      rewrite (Seg1 (CNext (RItem x))) by (rewrite plog_complete, H; reflexivity). cbn [mrun fold_left].
+      assert (R1 : RA (rec_call m (CNext (RItem x))) s1).
+      { eapply RA_xframe; [exact X|]. apply RA_rec_mono; [reflexivity|discriminate|exact R]. }
+      unfold complete.
+      destruct (complete_request_fields s1 (r_id x)
+                  (match r_body x with BOk v => OReply v | BErr k => OSrvErr k end))
+        as (F1 & F2 & F3 & F4 & F5 & F6 & F7 & F8 & F9).
+      eapply RA_shrink; [apply calls_ok_eq; exact F1|intro; rewrite (senders_eq _ _ F1 F2); assumption
+                        |rewrite F3; tauto|rewrite F4; tauto|intros id Hid; apply (F7 id Hid)
+                        |rewrite F4; tauto| |exact F9|apply rxc_complete_request|exact F5|exact F6|exact R1].
+      intros sr Hsr Hin. destruct (N.eq_dec (s_id sr) (r_id x)) as [E|E].
+      + right; right. rewrite rec_call_sent in Hsr. cbn [sent_of] in Hsr. rewrite app_nil_r in Hsr.
+        apply ended_read; [exact E|]. apply (sd_sent_seq _ _ (sim_d _ _ S) sr Hsr).
+      + left. apply F8; assumption.
+    - (* other reads *)
+      pose proof (XFrame_do_next tp _ _ _ H) as X. apply do_next_eq in H.
+      destruct H as [(_ & -> & ->)|(_ & H)].
+      + rewrite Seg0 by reflexivity. exact R.
+      + rewrite (Seg1 (CNext r)) by (rewrite H; reflexivity). cbn [mrun fold_left].
+        eapply RA_xframe; [exact X|]. apply RA_rec_mono; [|discriminate|exact R].
+        destruct r; try reflexivity. exfalso. eapply H0; reflexivity.
+    - (* skip a request whose caller is gone *)
+      destruct (q_pop_fields _ _ _ H (sim_w _ _ S)) as (Q & C & Sn & F1 & F2 & F3 & F4 & F5 & F6 & _).
+      rewrite Seg0; [|unfold slot_tx_drop, set_slot; cbn [plog upd_slots];
+                      pose proof (plog_q_poll_recv s) as L; rewrite H in L; exact L].
+      cbn [mrun fold_left].
+      eapply RA_shrink; [| | | | | | | | | | |exact R].
+      + eapply calls_ok_trans; [exact C|apply calls_ok_eq; reflexivity].
+      + intro. rewrite (senders_eq (slot_tx_drop s1 (q_id q)) s1) by reflexivity. congruence.
+      + rewrite Q. discriminate.
+      + unfold slot_tx_drop, set_slot. cbn [cancels upd_slots]. rewrite F4. tauto.
+      + unfold slot_tx_drop, set_slot. cbn [inflight upd_slots]. rewrite F1. tauto.
+      + unfold slot_tx_drop, set_slot. cbn [cancels upd_slots]. rewrite F4. tauto.
+      + unfold slot_tx_drop, set_slot. cbn [inflight upd_slots]. rewrite F1. tauto.
+      + unfold slot_tx_drop, set_slot. cbn [timers upd_slots]. rewrite F2. tauto.
+      + intros id Hid. apply rxc_slot_tx_drop. rewrite F3. exact Hid.
+      + unfold slot_tx_drop, set_slot. cbn [terminal upd_slots]. exact F5.
+      + unfold slot_tx_drop, set_slot. cbn [dropped upd_slots]. exact F6.
+    - (* write a request *)
+      destruct (q_pop_fields _ _ _ H (sim_w _ _ S)) as (Q & C & Sn & F1 & F2 & F3 & F4 & F5 & F6 & _).
+      pose proof (sim_q_poll_recv _ _ S) as Sq. rewrite H in Sq. cbn [fst snd] in Sq.
+      assert (R1 : RA m s1).
+      { eapply RA_shrink; [exact C|congruence|rewrite Q; discriminate|rewrite F4; tauto|rewrite F1; tauto
+                          |rewrite F4; tauto|rewrite F1; tauto|rewrite F2; tauto|rewrite F3; tauto
+                          |exact F5|exact F6|exact R]. }
+      rewrite get_slot_slotv in H0.
+      pose proof (RA_send_request m s1 q w Sq R1 H0) as R2.
+      pose proof (XFrame_do_send tp _ _ _ _ H1) as X. apply do_send_eq in H1.
+      assert (L3 : plog s3 = plog s ++ [req_call q w]).
+      { rewrite H1. cbn [plog upd_tr insert_request upd_if].
+        pose proof (plog_q_poll_recv s) as L; rewrite H in L; cbn [snd] in L. rewrite L. reflexivity. }
+      assert (R3 : RA (rec_call m (req_call q w)) s3) by (eapply RA_xframe; [exact X|exact R2]).
+      destruct w.
+      + rewrite (Seg1 _ L3). exact R3.
+      + rewrite (Seg1 (req_call q SErr)) by (rewrite plog_complete_request; exact L3).
+        cbn [mrun fold_left].
+        destruct (complete_request_fields s3 (q_id q) OSendErr)
+          as (G1 & G2 & G3 & G4 & G5 & G6 & G7 & G8 & G9).
+        eapply RA_shrink; [apply calls_ok_eq; exact G1|intro; rewrite (senders_eq _ _ G1 G2); assumption
+                          |rewrite G3; tauto|rewrite G4; tauto|intros id Hid; apply (G7 id Hid)
+                          |rewrite G4; tauto| |exact G9|apply rxc_complete_request|exact G5|exact G6|exact R3].
+        intros sr Hsr Hin. destruct (N.eq_dec (s_id sr) (q_id q)) as [E|E]; [|left; apply G8; assumption].
+        right; right. rewrite rec_call_sent in Hsr. cbn [req_call sent_of] in Hsr.
+        apply in_app_or in Hsr. destruct Hsr as [Hsr|[<-|[]]]; [|apply ended_failed; reflexivity].
+        exfalso. apply (sd_queue_unsent _ _ (sim_d _ _ Sq) q sr); [left; reflexivity|exact Hsr|exact E].
+    - (* a cancellation for nothing *)
+      assert (E : cancels s = id :: cancels s2 /\ s2 = upd_cancels s (cancels s2)).
+      { revert H H0. unfold c_poll_recv, cancel_request.
+        destruct (cancels s) as [|y l]; [destruct (Nat.eqb _ _); discriminate|]. intros [= -> <-].
+        cbn [inflight upd_cancels]. destruct (alookup id (inflight s)); [discriminate|].
+        intros [= <-]. split; reflexivity. }
+      destruct E as [E1 E2]. rewrite Seg0 by (rewrite E2; reflexivity). cbn [mrun fold_left].
+      assert (Hn : ~ In id (map fst (inflight s))).
+      { revert H H0. unfold c_poll_recv, cancel_request.
+        destruct (cancels s) as [|y l]; [destruct (Nat.eqb _ _); discriminate|]. intros [= -> <-].
+        cbn [inflight upd_cancels]. destruct (alookup id (inflight s)) eqn:Ea; [discriminate|].
+        intros _. apply alookup_none_notin, Ea. }
+      rewrite E2. eapply RA_shrink; [apply calls_ok_eq; reflexivity|tauto|tauto|rewrite E1; discriminate
+                                    |tauto| |tauto|tauto|tauto|reflexivity|reflexivity|exact R].
+      cbn [cancels inflight upd_cancels]. intros id' Hin Hif. rewrite E1 in Hin.
+      destruct Hin as [<-|Hin]; [contradiction|exact Hin].
+    - (* a cancellation on the wire *)
+      assert (E : cancels s = id :: cancels s2 /\
+                  s2 = upd_if (upd_cancels s (cancels s2)) (aremove id (inflight s)) (aremove id (timers s))).
+      { revert H H0. unfold c_poll_recv, cancel_request.
+        destruct (cancels s) as [|y l]; [destruct (Nat.eqb _ _); discriminate|]. intros [= -> <-].
+        cbn [inflight timers upd_cancels]. destruct (alookup id (inflight s)); [|discriminate].
+        intros [= _ <-]. split; reflexivity. }
+      destruct E as [E1 E2].
+      pose proof (XFrame_do_send tp _ _ _ _ H1) as X. apply do_send_eq in H1.
+      rewrite (Seg1 (CSend (MCancel id (if_tc e)) w)) by (rewrite H1, E2; reflexivity).
+      cbn [mrun fold_left]. eapply RA_xframe; [exact X|].
+      rewrite E2. eapply RA_shrink; [apply calls_ok_eq; reflexivity|tauto|tauto|rewrite E1; discriminate
+                                    | | | | |tauto|reflexivity|reflexivity|apply RA_rec_cancel, R];
+        cbn [cancels inflight timers upd_cancels upd_if].
+      + intros id' Hin. apply in_map_fst_aremove in Hin. tauto.
+      + intros id' Hin Hif. apply in_map_fst_aremove in Hif. rewrite E1 in Hin.
+        destruct Hin as [<-|Hin]; [tauto|exact Hin].
+      + intros sr Hsr Hin. destruct (N.eq_dec (s_id sr) id) as [<-|Hn].
+        * right; left. rewrite cancelled_rec_call. cbn [cancel_id]. rewrite N.eqb_refl. apply orb_true_r.
+        * left. apply in_map_fst_aremove. tauto.
+      + intros [k v] Hin. apply In_aremove in Hin. tauto.
+    - (* an expired timer *)
+      pose proof (plog_poll_expired s) as L. rewrite H in L. cbn [snd] in L.
+      rewrite (Seg0 L). cbn [mrun fold_left]. revert H. unfold poll_expired.
+      destruct (min_timer (timers s) None) as [[idx w]|] eqn:Em; [|discriminate].
+      destruct (N.leb w (now s)) eqn:Ew; [|discriminate]. apply N.leb_le in Ew.
+      apply min_timer_In in Em. destruct Em as [Hin|]; [|discriminate].
+      cbn [inflight timers upd_if].
+      destruct (alookup idx (inflight s)) as [e|] eqn:Ea; intros [= _ <-].
+      + rewrite slot_send_alt. unfold set_slot.
+        eapply RA_shrink; [apply calls_ok_eq; reflexivity|tauto|tauto|tauto| | | | | |reflexivity|reflexivity|exact R];
+          cbn [cancels inflight timers slots upd_slots upd_if].
+        * intros id' Hid. apply in_map_fst_aremove in Hid. tauto.
+        * tauto.
+        * intros sr Hsr Hif. destruct (N.eq_dec (s_id sr) idx) as [E|E].
+          -- right; right. apply (ended_time m sr w).
+             ++ eapply (ra_ti _ _ R); eassumption.
+             ++ rewrite (sc_now _ _ (sim_c _ _ S)). exact Ew.
+          -- left. apply in_map_fst_aremove. tauto.
+        * intros [k v] Hx. apply In_aremove in Hx. tauto.
+        * intros id' Hid. rewrite slotv_aset. destruct (N.eqb id' idx) eqn:E; [|exact Hid].
+          apply N.eqb_eq in E; subst. unfold send_val. rewrite get_slot_slotv. cbn [slots upd_if].
+          rewrite Hid. reflexivity.
+      + eapply RA_shrink; [apply calls_ok_eq; reflexivity|tauto|tauto|tauto|tauto|tauto|tauto| |tauto
+                          |reflexivity|reflexivity|exact R].
+        cbn [timers upd_if]. intros [k v] Hx. apply In_aremove in Hx. tauto.
   Qed.
 End RA.
